@@ -183,14 +183,36 @@ def run_check(ctx, mod, ev):
 
     # 5 oracle / failing-input search --------------------------------------------------------
     findings = C.load_findings(prop)
-    try:
-        failures = mod.oracle(ctx, corr.get("disagreements", []), bool(broken))
-    except Exception as e:  # noqa: BLE001
-        crash = impl_crash(e)
-        if crash is None:
-            raise
-        failures = []
-        broken.append({"kind": "oracle-crashed-in-implementation", "detail": crash})
+    def run_oracle():
+        try:
+            return mod.oracle(ctx, corr.get("disagreements", []), bool(broken))
+        except Exception as e:  # noqa: BLE001
+            crash = impl_crash(e)
+            if crash is None:
+                raise
+            broken.append({"kind": "oracle-crashed-in-implementation", "detail": crash})
+            return []
+
+    # The application's logging configuration is part of "every configuration": the correspondence and the first
+    # oracle pass run with logging switched off (what a production deployment above DEBUG sees); when that pass
+    # finds nothing new, the oracle runs once more with every logger at DEBUG and a handler that formats each
+    # record (what the repository's own test fixtures use), so log statements and isEnabledFor() guards execute.
+    failures = run_oracle()
+    cov["oracle_logging_modes"] = ["disabled"]
+    known_sigs = {k["signature"] for k in findings}
+    if os.environ.get("VERIF_LOGMODE", "both") == "both" and all(f["signature"] in known_sigs for f in failures):
+        stats_a = getattr(ctx, "oracle_stats", {})
+        with debug_logging():
+            more = run_oracle()
+        cov["oracle_logging_modes"].append("debug")
+        cov["oracle_debug_pass"] = getattr(ctx, "oracle_stats", {})
+        ctx.oracle_stats = stats_a
+        have = {f["signature"] for f in failures}
+        for f in more:
+            if f["signature"] not in known_sigs:
+                f = dict(f, logging="DEBUG")
+            if f["signature"] not in have or f["signature"] not in known_sigs:
+                failures.append(f)
     cov["oracle"] = getattr(ctx, "oracle_stats", {})
     known, unknown = [], []
     for f in failures:
@@ -259,6 +281,35 @@ def run_check(ctx, mod, ev):
         f"oracle_failures={len(failures)} (known {len(known)}) -> exit {rc} in {ctx.elapsed():.1f}s"
     )
     return rc
+
+
+class _FormatAndDrop(__import__("logging").Handler):
+    def emit(self, record):
+        self.format(record)
+
+
+class debug_logging:
+    """every logger at DEBUG, each record formatted and dropped; logging.disable() made a no-op meanwhile"""
+
+    def __enter__(self):
+        import logging
+
+        self.lg = logging
+        self.saved = (logging.disable, logging.root.manager.disable, logging.root.level, list(logging.root.handlers))
+        logging.disable(logging.NOTSET)
+        logging.disable = lambda *a, **k: None
+        self.h = _FormatAndDrop()
+        logging.root.handlers = [self.h]
+        logging.root.setLevel(logging.DEBUG)
+        return self
+
+    def __exit__(self, *exc):
+        lg = self.lg
+        lg.disable = self.saved[0]
+        lg.root.handlers = self.saved[3]
+        lg.root.setLevel(self.saved[2])
+        lg.disable(self.saved[1])
+        return False
 
 
 def impl_crash(e):
